@@ -54,12 +54,18 @@ Touch == /\ hist = <<>> /\ fs = Empty
          /\ fs' = [p \in {"a"} |-> [content |-> <<>>, mtime |-> 0]]
          /\ hist' = <<"touch">>
          /\ UNCHANGED <<clock, last>>
-Run(v) == /\ Len(SelectSeq(hist, LAMBDA x : x # "touch")) < MaxRuns
+\* between two runs somebody removes an output file (here: the helper file) - the next run has to bring it back
+Remove == /\ hist # <<>> /\ hist[Len(hist)] \notin {"touch", "remove"}
+          /\ HelperPath \in DOMAIN fs
+          /\ fs' = [p \in (DOMAIN fs) \ {HelperPath} |-> fs[p]]
+          /\ hist' = Append(hist, "remove")
+          /\ UNCHANGED <<clock, last>>
+Run(v) == /\ Len(SelectSeq(hist, LAMBDA x : x \notin {"touch", "remove"})) < MaxRuns
           /\ clock' = clock + 1
           /\ fs' = RunOn(fs, v, clock')
           /\ last' = v
           /\ hist' = Append(hist, v)
-Next == Touch \/ \E v \in Versions : Run(v)
+Next == Touch \/ Remove \/ \E v \in Versions : Run(v)
 Spec == Init /\ [][Next]_vars
 
 \* ---------------------------------------------------------------- layer P (C17)
@@ -67,9 +73,11 @@ Spec == Init /\ [][Next]_vars
 \* (a failing run is responsible for no file)
 FreshContent(v) == LET s == (IF Fails[v] THEN Empty ELSE RunOn(Empty, v, 1)) IN [p \in DOMAIN s |-> s[p].content]
 \* re-running with unchanged sources leaves every file byte-identical and untouched
-Idempotent == [][(last' = last /\ last # "none") => fs' = fs]_vars
+\* (a re-run straight after a run; after somebody removed a file the next run is a repair, judged by Fresh)
+Idempotent == [][(last' = last /\ last # "none" /\ hist[Len(hist)] # "remove" /\ hist'[Len(hist')] # "remove") => fs' = fs]_vars
 \* C08 / C17: a run that fails creates and modifies nothing (bytes and modification times)
-FailedRunTouchesNothing == [][(Len(hist') > Len(hist) /\ hist'[Len(hist')] # "touch" /\ Fails[last']) => fs' = fs]_vars
+FailedRunTouchesNothing == [][(Len(hist') > Len(hist) /\ hist'[Len(hist')] \notin {"touch", "remove"} /\ Fails[last']) => fs' = fs]_vars
 \* after any history, every file the last run is responsible for has the fresh content
-Fresh == last # "none" => \A p \in DOMAIN FreshContent(last) : p \in DOMAIN fs /\ fs[p].content = FreshContent(last)[p]
+\* (not while a removed file is waiting for the next run)
+Fresh == (last # "none" /\ hist[Len(hist)] # "remove") => \A p \in DOMAIN FreshContent(last) : p \in DOMAIN fs /\ fs[p].content = FreshContent(last)[p]
 =============================================================================
